@@ -98,6 +98,8 @@ def tokenizer_semantics(ctx, rule):
         for k, v in t.attrs.items():
             if isinstance(v, AList):
                 out[k] = [list(x.items) if isinstance(x, AList) else x for x in v.items]
+            elif isinstance(v, AObj):
+                out[k] = {'<class>': v.cls.name if v.cls is not None else None, **snapshot(v)}      # state kept in a helper object
             else:
                 out[k] = v
         return out
